@@ -234,7 +234,8 @@ impl C19 {
                 ax.write_gs(edge_val(rng));
             }
             // a resize no host can satisfy (it must fail and leave the area as it was) before the steps
-            if rng.below(8) == 0 {
+            // (not under Miri: it cannot fail an allocation, a petabyte request ends the interpreter)
+            if rng.below(8) == 0 && !cfg!(miri) {
                 let areas = ax.verif_area_lengths();
                 if !areas.is_empty() {
                     let (st, _) = areas[rng.below(areas.len() as u64) as usize];
